@@ -101,7 +101,7 @@ var props = map[string]propSpec{
 		Rule: "a run counts when a leader change happened after >=1 commit and (some node truncated a conflicting suffix or a leader was elected while some node held uncommitted entries); distinct by schedule hash"},
 	"C03": {ID: "C03", Engine: "raft", Profiles: []profShare{{"repl", 4}, {"snap", 3}, {"crash", 3}},
 		Rule: "a run counts when >=20 updates were applied on >=2 nodes and >=1 leader change, restore or restart happened; distinct by schedule hash"},
-	"C04": {ID: "C04", Engine: "raft", Profiles: []profShare{{"repl", 4}, {"elect", 4}, {"crash", 2}},
+	"C04": {ID: "C04", Engine: "raft", Profiles: []profShare{{"repl", 3}, {"elect", 3}, {"crash", 2}, {"snap", 2}},
 		Rule: "a run counts when >=1 conflict truncation happened or >=1 append request from a lower term was delivered; distinct by schedule hash"},
 	"C05": {ID: "C05", Engine: "raft", Profiles: []profShare{{"elect", 6}, {"crash", 3}, {"diskerr", 1}},
 		Rule: "a run counts when a voter handled vote requests in a term with >=2 candidates, or handled a vote request after restarting in that term; distinct by schedule hash"},
